@@ -67,6 +67,7 @@ type FnExec struct {
 	usedGhosts   map[int]bool
 	implGhost    map[string]Binding
 	asyncCall    bool            // applying a contract at a go statement
+	noAssume     bool            // postconditions at a return are checked independently of each other
 	asyncCallees map[string]bool // goroutines started under contract (assumption: they keep to their frame)
 }
 
